@@ -330,6 +330,10 @@ def run_case(run, spec):
         nc = leaf.getshape_class()
         if not ok or not chk("shape-delegation", got, (nc, nc[0], nc, nc[0])):
             return
+        ok, got = call_real(run, lambda: (ds.getshape_class_coarse(), ds.getdim_class_coarse(), ds.getdim("class_coarse")), what="shape delegation (item name with underscore)")
+        nc2 = leaf.getshape_class_coarse()
+        if not ok or not chk("shape-delegation:underscore-item", got, (nc2, nc2[0], nc2[0])):
+            return
         # dispose reaches the leaf exactly once (plain call and context-manager form)
         before = leaf.disposed
         ok, _ = call_real(run, lambda: ds.dispose(), what="dispose()")
